@@ -4,6 +4,7 @@ package main
 
 import (
 	"fmt"
+	"go/constant"
 	"go/token"
 	"go/types"
 	"sort"
@@ -154,7 +155,7 @@ func ruleEncodingNames(c *Ctx) {
 // ruleTransportUnbounded: the upstream transport sets no cap on connections per
 // origin, so forwarded requests never queue behind one another inside net/http.
 func ruleTransportUnbounded(c *Ctx) {
-	n := 0
+	n, ns := 0, 0
 	bad := []string{}
 	for _, f := range c.P.allFuncs {
 		if !inPkg(f, "upstream") && !inPkg(f, "server") {
@@ -175,14 +176,35 @@ func ruleTransportUnbounded(c *Ctx) {
 					continue
 				}
 				named, ok := pt.Elem().(*types.Named)
-				if !ok || named.Obj().Pkg() == nil || named.Obj().Pkg().Path() != "net/http" || named.Obj().Name() != "Transport" {
+				if !ok || named.Obj().Pkg() == nil || named.Obj().Pkg().Path() != "net/http" {
+					continue
+				}
+				fld := faField(fa).Name()
+				nonZero := true
+				if cst, ok := st.Val.(*ssa.Const); ok && (cst.Value == nil || (cst.Value.Kind() == constant.Int && cst.Int64() == 0)) {
+					nonZero = false
+				}
+				if named.Obj().Name() == "Server" {
+					// the client-facing server: a write or read deadline covers the whole exchange, the upstream fetch
+					// and the wait behind another request's fetch included
+					ns++
+					if nonZero && (fld == "WriteTimeout" || fld == "ReadTimeout") {
+						bad = append(bad, fmt.Sprintf("%s: %s sets %s on the client-facing http.Server: the deadline is armed when the request is read and never extended, so a response that takes longer (a slow upstream, a waiter parked behind a fetch, a large body) is cut off instead of delivered", c.P.pos(st.Pos()), funcName(f), fld))
+					}
+					continue
+				}
+				if named.Obj().Name() != "Transport" {
 					continue
 				}
 				n++
-				fld := faField(fa).Name()
-				if fld == "MaxConnsPerHost" {
-					if cst, ok := st.Val.(*ssa.Const); !ok || cst.Value == nil || cst.Int64() != 0 {
+				if nonZero {
+					switch fld {
+					case "MaxConnsPerHost":
 						bad = append(bad, fmt.Sprintf("%s: %s limits the connections per upstream host (MaxConnsPerHost): requests beyond the cap wait inside net/http for another request to finish, so passed / hit-for-pass requests queue behind one another", c.P.pos(st.Pos()), funcName(f)))
+					case "MaxResponseHeaderBytes":
+						bad = append(bad, fmt.Sprintf("%s: %s caps the size of upstream response headers (MaxResponseHeaderBytes): a response with larger headers is replaced by pike's own error instead of being delivered", c.P.pos(st.Pos()), funcName(f)))
+					case "ResponseHeaderTimeout":
+						bad = append(bad, fmt.Sprintf("%s: %s sets ResponseHeaderTimeout on the upstream transport: an upstream slower than that fails although the location's proxy timeout allows it", c.P.pos(st.Pos()), funcName(f)))
 					}
 				}
 			}
@@ -192,7 +214,7 @@ func ruleTransportUnbounded(c *Ctx) {
 		c.undecided("transport-unbounded", "upstream.newTransport", "-", "no http.Transport field assignments found")
 		return
 	}
-	c.check(len(bad) == 0, "transport-unbounded", "upstream.newTransport", "upstream/upstream.go", fmt.Sprintf("%d http.Transport fields set, none caps the connections per host", n), strings.Join(uniq(bad), " || "), n)
+	c.check(len(bad) == 0, "transport-unbounded", "upstream.newTransport", "upstream/upstream.go", fmt.Sprintf("%d http.Transport fields set, none caps connections per host, response header size or header wait; %d http.Server fields set, no read / write deadline over the exchange", n, ns), strings.Join(uniq(bad), " || "), n)
 }
 
 // ruleDecoderOptions: the zstd reader is built without options that make it
